@@ -49,11 +49,24 @@ SPECIALS = {
 }
 
 
+import collections
+
+Pt = collections.namedtuple('Pt', 'u v')
+
+
 def dec(v):
     """decode a JSON-encoded value"""
     if isinstance(v, list):
         return [dec(i) for i in v]
     if isinstance(v, dict):
+        if '__od__' in v:
+            return collections.OrderedDict((dec(k), dec(x)) for k, x in v['__od__'])
+        if '__dd__' in v:
+            return collections.defaultdict(float, ((dec(k), dec(x)) for k, x in v['__dd__']))
+        if '__nt__' in v:
+            return Pt(*[dec(i) for i in v['__nt__']])
+        if '__dq__' in v:
+            return collections.deque(dec(i) for i in v['__dq__'])
         if '__t__' in v:
             return tuple(dec(i) for i in v['__t__'])
         if '__b__' in v:
@@ -94,6 +107,14 @@ def enc(v):
         return v.j
     if isinstance(v, bool):
         return {'__B__': int(v)}
+    if isinstance(v, collections.OrderedDict):
+        return {'__od__': [[enc(k), enc(x)] for k, x in v.items()]}
+    if isinstance(v, collections.defaultdict):
+        return {'__dd__': [[enc(k), enc(x)] for k, x in v.items()]}
+    if isinstance(v, Pt):
+        return {'__nt__': [enc(i) for i in v]}
+    if isinstance(v, collections.deque):
+        return {'__dq__': [enc(i) for i in v]}
     if isinstance(v, tuple):
         return {'__t__': [enc(i) for i in v]}
     if isinstance(v, list):
